@@ -18,10 +18,11 @@
      - references keep working: across any run (successful or failed) every recorded reference still names a
        registered selector and the same object as when it was created, and after a re-registration the
        re-pointed reference names the LATEST registration of its object;
-     - config_str header: bound names are re-aliased to be unique.
+     - config_str header: bound names are re-aliased to be unique; it depends on the recorded imports up to
+       permutation only (C19_header_import_order_independent, F37).
    Two deviations of the implementation from this model are recorded findings (F21, F22), see
    known_findings.json; whole-text round trip of config_str is validated on the implementation. *)
-From Coq Require Import List String ZArith Bool Arith.
+From Coq Require Import List String ZArith Bool Arith Sorting.Permutation.
 From GinV Require Import Lib.Out Lib.PyStr Model.SelectorMap Model.Serial Model.DynReg Proofs.SerialProofs Proofs.DynRegProofs Proofs.DynRegSkip Proofs.DynRegProofs2.
 Import ListNotations.
 Open Scope string_scope.
@@ -328,6 +329,17 @@ Theorem C15_dyn_orig_drops_provided_binding :
   all_known_dyn DynSkipExample.univ DSkTrue DynSkipExample.stmts DynSkipExample.s0 [] empty_ctx = true.
 Proof. exact DynSkipExample.C15_dyn_orig_drops_provided_binding. Qed.
 
+(* F37 (repaired code): the header under dynamic registration reads the recorded imports (_IMPORTS, a set in the
+   implementation) only through the sorted list of statements and the test for the enabling statement: it depends on
+   them up to permutation only.  (The empty alias, which the parser cannot produce, is excluded.) *)
+Theorem C19_header_import_order_independent : forall s1 s2 refs,
+  ds_reg s1 = ds_reg s2 -> ds_store s1 = ds_store s2 ->
+  Permutation (ds_imports s1) (ds_imports s2) ->
+  Forall (fun d => d_alias d <> Some "") (ds_imports s1) ->
+  config_header s1 refs = config_header s2 refs.
+Proof. exact config_header_import_order_independent. Qed.
+
+Print Assumptions C19_header_import_order_independent.
 Print Assumptions C19_unprovided_name.
 Print Assumptions C19_reserved_gin.
 Print Assumptions C19_late_enabling.
